@@ -179,7 +179,7 @@ def cuts_for(bs, tier):
     out = set()
     ps = (0, 1, bs - 1) if tier == 'quick' else range(bs)
     for p in ps:
-        for mid in (0, 1, bs - p - 1, bs - p, bs - p + 1, bs, bs + 1, 3 * bs + 1):
+        for mid in (0, 1, bs - p - 1, bs - p, bs - p + 1, bs, bs + 1, 2 * bs - p, 2 * bs, 3 * bs + 1):
             if mid < 0:
                 continue
             for tail in (0, 5):
@@ -217,7 +217,7 @@ def body(run, a):
     b_ = [r for r in two if r.status == 'ret'][0]
     st, model, dt = check.solve_neq([(a_.mem(a_.named['out'], 0, 32), b_.mem(b_.named['out'], 0, 32))], (), 30)
     run.canary('digest terms of two different messages are distinguished (uninterpreted compression does not collapse them)', st == 'sat')
-    run.bounds = {'types': sorted(TYPES), 'piece lengths': '0, 1, block-p-1, block-p, block-p+1, block, block+1, 3*block+1 followed by a tail of 0 or 5 bytes',
+    run.bounds = {'types': sorted(TYPES), 'piece lengths': '0, 1, block-p-1, block-p, block-p+1, block, block+1, 2*block-p, 2*block, 3*block+1 followed by a tail of 0 or 5 bytes',
                   'buffer fill p before the piece': '0, 1, block-1 (quick) / all (thorough)', 'message bytes': 'symbolic', 'cases': len(tasks),
                   'operations': 'three updates; clone at c1 (original, clone, and a second clone that must not see later updates); reset and finalize_reset after junk',
                   'outside': 'other piece lengths; longer histories (each history is a composition of these steps from a state that C08 shows to depend on the absorbed message only)'}
